@@ -13,7 +13,7 @@ RULE = ("stateful: per sequence (N<=24, S/T/Y-rich, S/T/Y-free and mixed classes
         "positions p with 1<=p<=N holding S/T/Y) is compared with get_phosphosites(), the stored sequence, get_phosphosequence() and "
         "get_all_phosphorylatable_sites(); the kappa op compares get_kappa_after_phosphorylation() with a fresh object on the substituted "
         "string; the distribution op requires 2^k entries in binary counting order (first-set site most significant) each carrying the six "
-        "values of a fresh object on the correspondingly substituted string. Non-trivial: history with an out-of-range, non-STY or duplicate "
+        "values of a fresh object on the correspondingly substituted string. set_phosphosites may also be given the same caller-owned list object again after it was refilled or grown in place; plain queries (kappa, delta-max, ...) are interleaved. Non-trivial: history with an out-of-range, non-STY or duplicate "
         "position, or a clear followed by a set; distinct by (sequence, history).")
 ASSUMPTIONS = ["positions are Python ints (the documented argument type)", "status tuples may spell bits as '0'/'1' or 0/1", "tolerance 1e-9 on the derived floats"]
 TECHNIQUE = "Hypothesis stateful testing (RuleBasedStateMachine) against a reference model of the phosphosite list; derived values checked differentially against freshly built objects"
@@ -27,6 +27,7 @@ class Sim:
         self.seq = init["seq"]
         self.o = util.sp(self.seq)
         self.model = []
+        self.buf = []            # a caller-owned list that is refilled in place and passed again
         self.flags = set()
         self.cleared = False
         self.nsteps = 0
@@ -57,7 +58,16 @@ class Sim:
         N = len(self.seq)
         if op == "set":
             vals = args["vals"]
-            arg = vals[0] if args["kind"] == "int" else (tuple(vals) if args["kind"] == "tuple" else list(vals))
+            if args["kind"] == "shared-list":
+                if args.get("grow"):
+                    self.buf.extend(vals)        # grow the same list object
+                else:
+                    self.buf[:] = vals           # refill the same list object
+                arg = self.buf
+                vals = list(self.buf)
+                self.flags.add("shared-list")
+            else:
+                arg = vals[0] if args["kind"] == "int" else (tuple(vals) if args["kind"] == "tuple" else list(vals))
             if args["kind"] == "int":
                 vals = vals[:1]
             if self.cleared:
@@ -72,12 +82,20 @@ class Sim:
                 else:
                     self.model.append(p)
             self.o.set_phosphosites(arg)
-            self.verify("set_phosphosites(%r)" % (arg,))
+            self.verify("set_phosphosites(%r)" % (list(arg) if isinstance(arg, list) else arg,))
         elif op == "clear":
             self.model = []
             self.cleared = True
             self.o.clear_phosphosites()
             self.verify("clear_phosphosites()")
+        elif op == "query":
+            # other read-only queries in between (they may fill caches) must not disturb the phospho state or its derived values
+            try:
+                getattr(self.o, args["q"])()
+            except Exception:   # noqa
+                pass
+            self.verify(args["q"])
+            self.flags.add("interleaved-query")
         elif op == "kappa":
             got = self.o.get_kappa_after_phosphorylation()
             want = util.sp(self.phos_string(self.model)).get_kappa()
@@ -114,7 +132,9 @@ def positions(N):
 
 def ops_for(N):
     return {
-        "set": st.fixed_dictionaries({"kind": st.sampled_from(["int", "list", "list", "tuple"]), "vals": st.lists(positions(N), min_size=1, max_size=5)}),
+        "set": st.fixed_dictionaries({"kind": st.sampled_from(["int", "list", "list", "tuple", "shared-list", "shared-list"]), "vals": st.lists(positions(N), min_size=1, max_size=5),
+                                      "grow": st.booleans()}),
+        "query": st.fixed_dictionaries({"q": st.sampled_from(["get_kappa", "get_deltaMax", "get_Omega", "get_delta", "get_FCR", "get_phosphosequence"])}),
         "clear": st.just(None),
         "kappa": st.just(None),
         "dist": st.just(None),
